@@ -102,7 +102,7 @@ Definition translated_should_warn := true.
 
 (* handlerWriter.Write  (admission test of the std-log bridge) *)
 Definition bridge_admit (f_enabled : Z -> bool) (s_lvl s_l_level : Z) : bool :=
-  (s_l_level <=? s_lvl).
+  (f_enabled s_lvl).
 Definition translated_bridge_admit := true.
 
 (* handler4LogSlog.Enabled   *)
@@ -141,7 +141,15 @@ Definition logsloglevel2level (level : Z) : Z :=
   else if (level =? 3) then 4
   else if (level =? 16) then 1
   else if (level =? 17) then 0
-  else 1.
+  else if (level <? (-4))
+  then 6
+  else if (level <? 0)
+  then 5
+  else if (level <? 4)
+  then 4
+  else if (level <? 8)
+  then 3
+  else 2.
 Definition translated_logsloglevel2level := true.
 
 (* PrintCtx.appendTimestamp   *)
